@@ -41,8 +41,11 @@ CLAIMED["C15"] = (
     "the positional arrays behind head/tail/nth list exactly the first/last n (n-th) selected rows of every group, -1 elsewhere, never a "
     "null-key row, also through the public GroupBy.head/tail/nth on contiguous and chunked states (n up to N+1): solver-decided for all code "
     "sequences and masks within N<=4,G<=2 (quick) / N<=6,G<=3 (thorough); for groups of ANY "
-    "size by a one-step inductive query over the kernels' per-group counters with their real dtype (explicit wrap-around)",
-    "positions only (pandas iloc/set_index/sort_index in _get_row_selection outside); the inductive invariant is stated in DESIGN 3.6",
+    "size by a one-step inductive query over the kernels' per-group counters with their real dtype (explicit wrap-around); plus index "
+    "restoration: the real _get_row_selection(keep_input_index=True) returns every kept position once, in order, labelled start+step*position "
+    "with its own values, for a RangeIndex with symbolic start and step (pandas contract model)",
+    "labels and values only for a RangeIndex and a grouper with sort off (other index kinds, the final sort_index and keep_input_index=False "
+    "outside); the inductive invariant is stated in DESIGN 3.6",
     "DESIGN.md 4 C15")
 
 CLAIMED["C10"] = (
